@@ -108,6 +108,10 @@ func symbolPacket(sym string, seq uint64) gocbcore.SimPacket {
 		return docPacket("mutation", seq, fmt.Sprintf("at%d", seq), "at", 0)
 	case "Ebefore":
 		return docPacket("expiration", seq, fmt.Sprintf("old%d", seq), "before", 0)
+	case "Mresc1": // a key under the reserved prefix in a NAMED collection (checkpoints kept in the streamed collection)
+		return docPacket("mutation", seq, reservedPrefix+"g:checkpoint:7", "after", 8)
+	case "Dtxnc2":
+		return docPacket("deletion", seq, txnPrefix+"atr-9", "after", 9)
 	case "Mc1":
 		return docPacket("mutation", seq, fmt.Sprintf("c1doc%d", seq), "after", 8)
 	case "Dc2":
